@@ -26,6 +26,7 @@ package routing
 //@ requires bp.bndl != nil ==> bp.Id == bp.bndl.ID() @C14
 
 // govc:trusted (*Core).bundleDeletion
+//@ assigns mapof(bp.Constraints), bp.store.$qok, c.$emitted, c.$lastOut
 //@ requires bp.bndl != nil ==> bp.Id == bp.bndl.ID() @C14
 
 // govc:trusted (*BundleDescriptor).AddConstraint
@@ -61,3 +62,45 @@ package routing
 //@ ensures descriptor.bndl.PrimaryBlock.Lifetime == old(descriptor.bndl.PrimaryBlock.Lifetime) && descriptor.bndl.PrimaryBlock.CreationTimestamp == old(descriptor.bndl.PrimaryBlock.CreationTimestamp) && descriptor.bndl.PrimaryBlock.BundleControlFlags == old(descriptor.bndl.PrimaryBlock.BundleControlFlags)
 //@ ensures (result1 == nil) == (exists j int :: 0 <= j && j < len(descriptor.bndl.CanonicalBlocks) && descriptor.bndl.CanonicalBlocks[j].Value.BlockTypeCode() == 7)
 //@ ensures result1 == nil ==> forall j int :: 0 <= j && j < len(descriptor.bndl.CanonicalBlocks) && descriptor.bndl.CanonicalBlocks[j].Value.BlockTypeCode() == 7 ==> uint64(*(descriptor.bndl.CanonicalBlocks[j].Value.(*bpv7.BundleAgeBlock))) == old(uint64(*(descriptor.bndl.CanonicalBlocks[j].Value.(*bpv7.BundleAgeBlock)))) + uint64(time.Since(old(descriptor.Timestamp))) / 1000000 && result0 == uint64(*(descriptor.bndl.CanonicalBlocks[j].Value.(*bpv7.BundleAgeBlock)))
+
+// ---- local delivery (C07, C15, C05) ----
+
+// Outcome of the hand-over to the application agents (assumed: the agent manager and mux are under contract in
+// pkg/agent for their own parts): an error means nobody took the bundle.
+// govc:ghostfield $handedOver uint64
+// govc:trusted (*AgentManager).Deliver
+//@ assigns manager.$handedOver, mapof(descriptor.Constraints), descriptor.store.$qok
+//@ ensures result == nil ==> manager.$handedOver == old(manager.$handedOver) + 1
+//@ ensures result != nil ==> manager.$handedOver == old(manager.$handedOver)
+
+// govc:trusted (*Core).checkAdministrativeRecord
+//@ assigns nothing
+
+// govc:trusted (*Core).bundleContraindicated
+//@ assigns mapof(bp.Constraints), bp.store.$qok
+//@ ensures has(bp.Constraints, Contraindicated)
+
+// What callers assume of PurgeConstraints (the map iteration visits every key - not provable without reasoning about
+// the cardinality of the iterated set; the rest is proved from the body below).
+// govc:trusted (*BundleDescriptor).PurgeConstraints
+//@ assigns mapof(descriptor.Constraints)
+//@ ensures forall k Constraint :: has(descriptor.Constraints, k) ==> k == LocalEndpoint && old(has(descriptor.Constraints, k))
+
+// Proved: purging adds nothing and never removes the local-endpoint constraint.
+// govc:func (*BundleDescriptor).PurgeConstraints property C07 C05
+//@ requires descriptor.Constraints != nil
+//@ ghost k Constraint
+//@ assigns mapof(descriptor.Constraints)
+//@ ensures has(descriptor.Constraints, k) ==> old(has(descriptor.Constraints, k))
+//@ ensures old(has(descriptor.Constraints, LocalEndpoint)) ==> has(descriptor.Constraints, LocalEndpoint)
+//@ loop 0 invariant has(descriptor.Constraints, k) ==> old(has(descriptor.Constraints, k))
+//@ loop 0 invariant old(has(descriptor.Constraints, LocalEndpoint)) ==> has(descriptor.Constraints, LocalEndpoint)
+
+// A delivery is reported and the retention constraints are released only after a hand-over took place; otherwise
+// the bundle is kept and marked for retry (contraindicated) and no delivered report is emitted.
+// govc:func (*Core).localDelivery property C07 C15 C05
+//@ requires bp.bndl != nil && blocksNonNil(*bp.bndl) && bp.Constraints != nil && c.agentManager != nil && bp.Id == bp.bndl.ID()
+//@ atcall SendStatusReport: arg2 == 2 && c.agentManager.$handedOver == old(c.agentManager.$handedOver) + 1 && (uint64(bp.bndl.PrimaryBlock.BundleControlFlags) & 0x020000) != 0
+//@ atcall PurgeConstraints: c.agentManager.$handedOver == old(c.agentManager.$handedOver) + 1
+//@ ensures c.agentManager.$handedOver == old(c.agentManager.$handedOver) + 1 ==> forall k Constraint :: has(bp.Constraints, k) ==> k == LocalEndpoint
+//@ ensures c.agentManager.$handedOver == old(c.agentManager.$handedOver) && (uint64(old(bp.bndl.PrimaryBlock.BundleControlFlags)) & 0x02) == 0 ==> has(bp.Constraints, Contraindicated)
